@@ -48,6 +48,21 @@ impl InputPlugin for GridSearchPlugin {
                     .clone();
                 initial_map.remove(InputField::GridSearch.to_str());
                 let initial = serde_json::json!(initial_map);
+
+                // an axis without options has no combinations, and a section without any axis has
+                // nothing to expand. the product iterator below is only defined for one or more
+                // non-empty axes.
+                if let Some(empty_idx) = multiset_indices.iter().position(|i| i.is_empty()) {
+                    return Err(InputPluginError::InputPluginFailed(format!(
+                        "grid search field '{}' has no options",
+                        keys[empty_idx]
+                    )));
+                }
+                if multiset_indices.is_empty() {
+                    let mut replacement = initial;
+                    std::mem::swap(&mut replacement, input);
+                    return Ok(());
+                }
                 let multiset = MultiSet::from(&multiset_indices);
                 let result: Vec<serde_json::Value> = multiset
                     .into_iter()
